@@ -17,6 +17,12 @@ def main():
     quick = chk.tier == "quick"
     wd = vlib.sub("c19")
     trees = c16.small_trees() + [pegrun.random_tree(rnd, rnd.randint(1, 4)) for _ in range(60 if quick else 1500)]
+    # literals and selector parts outside ASCII (printable, non-printable, outside the BMP), quotes, backslashes, control characters
+    odd = ["é", "日本語", "🙂", "a\u00a0b", "\u200b", "\x7f", "\x01", "tab\there", "q\"q", "b\\s", "ünï", "\ufeffx", "e\u0301", "%!q(é)", "\U0001F600 \u00ff"]
+    for i, o in enumerate(odd):
+        trees.append(vlib.match(["x"], ["==", "!=", "in", "notin"][i % 4], o))
+        trees.append(vlib.match(["k", o], "==", "1"))
+    trees.append({"t": "coll", "op": "any", "sel": {"ty": "bexpr", "path": ["m", "日本"]}, "mode": "both", "n1": "k", "n2": "v", "e": vlib.match(["v"], "!=", "é"), "val": "", "hv": False})
     with open(os.path.join(wd, "trees.json"), "w") as fh:
         json.dump(trees, fh)
     styles = [{"sel": "auto", "lit": "auto", "ws": "", "paren": 0, "cont": False}, {"sel": "pointer", "lit": "auto", "ws": "", "paren": 0, "cont": False}]
@@ -25,14 +31,12 @@ def main():
     rows = json.loads(vlib.harness(["render", "-exprs", os.path.join(wd, "trees.json"), "-styles", os.path.join(wd, "styles.json")]).stdout)
     items, ptrees = [], []
     for r in rows:
-        t = pegrun.peg_tree(trees[r["i"]])
-        if t is None or r["steps"] == 0 or r["steps"] > 200000 or pegrun.syms(r["text"]) is None:
+        # the dump works on the real strings, not on the model alphabet of the parser model
+        t = pegrun.peg_tree(trees[r["i"]], lambda s: s)
+        if t is None or r["steps"] == 0 or r["steps"] > 200000:
             continue
         if r["style"] == 1:
             t = json.loads(json.dumps(t).replace('"ty": "bexpr"', '"ty": "ptr"'))
-        # the dump works on the real strings, not on the model alphabet: only trees whose strings are the same in both
-        if "<" in json.dumps(t):
-            continue
         items.append({"text": r["text"]})
         ptrees.append(t)
     with open(os.path.join(wd, "items.json"), "w") as fh:
